@@ -270,7 +270,6 @@ for _n in ('zzInvMod', 'zzDivMod', 'zzAlmostInvMod'):
 CAT['zzJacobi'].cls = lambda v: 'n<m' if v.n < v.m else None
 CAT['zzPowerModW'].cls = lambda v: 'a>=mod' if v.a >= v.mod else ('mod=1' if v.mod == 1 else None)
 CAT['zzSubW'].cls = CAT['zzSubW2'].cls = lambda v: 'n=0' if v.n == 0 else None
-CAT['zzExGCD'].cls = lambda v: 'a|b or b|a' if v.a % v.b == 0 or v.b % v.a == 0 else None
 for _n in ('zzGCD', 'zzLCM', 'zzExGCD', 'zzIsCoprime', 'zzJacobi', 'zzInvMod', 'zzDivMod', 'zzAlmostInvMod'):
     CAT[_n].weight = 3
 CAT['zzPowerMod'].weight = 8
